@@ -9,6 +9,7 @@ def dispatch (line : String) : String :=
   match (line.trimAscii.toString.splitOn " ").filter (· ≠ "") with
   | "fs" :: rest => FileStream.Drv.handle rest
   | "core" :: rest => Core.Drv.handle rest
+  | "argv" :: rest => Argv.Drv.handle rest
   | _ => "bad-op"
 
 partial def loop (h : IO.FS.Stream) (out : IO.FS.Stream) : IO Unit := do
